@@ -31,14 +31,10 @@ type gen struct {
 
 func newGen(r *lib.Rand, run *runner, idx int) *gen {
 	g := &gen{r: r, run_: run, idx: idx}
-	switch idx % 4 {
-	case 0:
-		g.allowUnbond, g.allowReadd = true, true
-	case 1:
-		g.allowUnbond = true
-	case 2:
-		g.allowReadd = true
-	}
+	// every history may call UnbondedOracle on removed oracles (the trigger of C13-1 before its fix); half of
+	// them avoid the trigger of the known finding C13-2
+	g.allowUnbond = true
+	g.allowReadd = idx%2 == 0
 	for m := 0; m < 2; m++ {
 		for a := 0; a < nOracles; a++ {
 			g.diligent[m][a] = r.Chance(65)
@@ -206,8 +202,13 @@ func (g *gen) run() {
 	for m := 0; m < 2; m++ {
 		for a := 0; a < nOracles; a++ {
 			if g.allowUnbond && g.govRemoved[m][a] {
+				ok := g.do(Op{K: "unbond", M: m, A: a}) == 0
 				g.do(Op{K: "unbond", M: m, A: a})
-				g.do(Op{K: "unbond", M: m, A: a})
+				if ok && r.Chance(50) {
+					// come back: approved again, bond again with the same or a spare external key
+					g.do(Op{K: "gov", M: m, L: append(append([]int{}, g.view(m).Prop...), a)})
+					g.do(g.bondOp(m, a))
+				}
 			}
 		}
 	}
